@@ -10,11 +10,14 @@ to `@guppy` helper functions (with constants, coercions, tuples, arrays and stru
 Every operator application has at least one traced operand (a constant-only subexpression would
 be evaluated by CPython in comptime mode, which is C04's comparison, not this one).  The *same
 body text* is emitted under `@guppy` and under `@guppy.comptime`; `main` calls both on 2-3 drawn
-input tuples; 20-30 cases share one emulated program.
+input tuples; 20-30 cases share one emulated program.  Every run first enumerates ALL reflected
+forms `constant OP traced` (18 operators x operand classes int/int, int/nat, float/int,
+int/float, float/float, bool/bool = 74 forms, two constants each, split over the shards), then
+searches random trees.
 Operand roles keep every operator defined: divisors are non-zero constants or the parameters
 `p z m` (inputs drawn non-zero), shift amounts and exponents are small constants or `s m`
-(inputs 0..6), `int(.)` is applied to floats of bounded magnitude only; runtime float `// %` are
-not generated (no `ffloor` on selene, DESIGN 1.4).
+(inputs 0..6), `int(.)` is applied to floats of bounded magnitude only; runtime float `// %` and
+`abs(float)` are not generated (no `ffloor` / `fabs` on selene 0.4.3, DESIGN 1.4).
 Oracle: (1) both modes accept the body => the two result streams are identical for all inputs
 (floats compared by repr: NaN = NaN, -0.0 != 0.0); (2) the generator only uses operations that
 the property statement lists as common to both modes (pinned: accepted by both modes on the
@@ -464,10 +467,13 @@ def localise(case, r):
     return feature(case["expr"]), case, r
 
 
-def bucket_of(r, feat):
+def bucket_of(r, feat, e=None):
     if r["status"] == "mismatch":
         return feat
     if r["status"] == "onesided":
+        if e is not None and e["k"] in ("bin", "cmp"):
+            # an operator one mode lacks: the operand types, not the operator, are the signature
+            feat = f"binop.{e['l']['t']}_{e['r']['t']}" + (".const_left" if is_const(e["l"]) else "")
         return f"availability.{r['who']}_{'rejects' if r['kind'] == 'rejected' else r['kind']}.{feat}"
     return None
 
@@ -481,7 +487,7 @@ def replay(case):
     case = {"expr": case["expr"], "inputs": case["inputs"]}
     r = run_cases([case])[0]
     if r["status"] in ("mismatch", "onesided"):
-        return (bucket_of(r, feature(case["expr"])), r["detail"] + "\n" + describe(case))
+        return (bucket_of(r, feature(case["expr"]), case["expr"]), r["detail"] + "\n" + describe(case))
     return None
 
 
@@ -1044,7 +1050,7 @@ def worker(ctx):
         else:
             feat, small, rr = localise(case, r)
         done.add((r["status"], feat))
-        b = bucket_of(rr, feat)
+        b = bucket_of(rr, feat, small["expr"])
         small = {"expr": small["expr"], "inputs": small["inputs"]}
         ctx.violation(b, small, rr["detail"] + "\n" + describe(small))
 
@@ -1056,7 +1062,8 @@ SPEC = harness.Spec(
           "len nat, tuple / array / struct construction, constant indexing, field access and 9 @guppy helper calls, every operator "
           "with >= 1 traced operand, plus 2-3 input tuples (boundary-biased ints up to +-2^63-1, floats in [-100, 100], divisors "
           "non-zero, shift amounts / exponents 0..6); the same body text is compiled under @guppy and @guppy.comptime and both are "
-          "run from one main (B cases per emulated program). non-trivial = case accepted by both modes with equal streams whose body "
+          "run from one main (B cases per emulated program); each run starts with the enumeration of all 74 reflected forms constant-OP-traced "
+          "(x2 constants, split over the shards). non-trivial = case accepted by both modes with equal streams whose body "
           "has a Python constant as *left* operand of an operator applied to a traced value; distinct = distinct (body, type, inputs)"),
     assumptions=["operations the generator uses are the ones the statement lists as common to both modes (pinned on the unchanged tree): "
                  "a one-sided rejection is reported as availability.* instead of being dropped as out of domain",
